@@ -527,7 +527,7 @@ def generate(tier, seed):
                 combos = [(0, "classic"), (6, "extended-bytes")]
                 hi = 5
             else:
-                combos = [(c, f) for c in (0, 6) for f in ("classic", "bytes", "extended", "extended-bytes")]
+                combos = [(0, "classic"), (0, "bytes"), (6, "extended"), (6, "extended-bytes")]
                 hi = 9
             special = set(getattr(opc, "opcode_extended_fmt", {})) | set(getattr(opc, "opcode_arg_fmt", {}))
             for ctx, fmt in combos:
